@@ -96,31 +96,11 @@ def filterFrom (lv : Variant) (rv : RVariant) (profile : Bool) (sel : List Nat) 
       | .error e => .error e
       | .ok (st'', out) => .ok (st'', if keep then l.text :: out else out)
 
-/-- a profile data line: `ProfileData.from_str_list` (profile_data.py:50-58); every line is a
-complete data point -/
-def classifyProfile (f : List Text) : Rec :=
-  match pyNat? (f.headD []) with
-  | none => .dataErr .value
-  | some inv =>
-  match f[1]? with
-  | none => .dataErr .index
-  | some f1 =>
-  match pyNat? f1 with
-  | none => .dataErr .value
-  | some nit =>
-  match ((f.drop 2).dropLast).getLast? with
-  | none => .dataErr .index
-  | some idx =>
-  match pyNat? idx with
-  | none => .dataErr .value
-  | some i => .meas ⟨inv, nit, f.getLast?.getD [], "profile".toList, true, i⟩
-
+/-- classification for the filter: `profile` says which `_parse_data_line` is at work; a `pl`
+without profile decoder is given the one that accepts every JSON column (pinned loader) -/
 def classifyP (profile : Bool) (pl : Payloads) (hdr : Text) (l : Line) : Rec :=
-  match l.content with
-  | '#' :: _ => classifyComment pl l.content
-  | _ => if l.content = hdr && l.terminated then .header
-         else if profile then classifyProfile (splitOn '\t' l.content)
-         else classifyData (splitOn '\t' l.content)
+  classify (if profile then { pl with profile := some (pl.profile.getD (fun _ => true)) }
+            else { pl with profile := none }) hdr l
 
 /-- the lines of a text as the filter sees them (unterminated last line: dropped by the
 repaired loader before anything is written) -/
